@@ -214,13 +214,18 @@ def run_case(case, ctx):
                      beta=b0, xp=xp, dtype=dt)
     if pre:
         bn = float(case["beta_new"])
-        for fn in ("log_weights", "unnormalized_log_weights", "log_evidence_ratio", "log_evidence_ratio_variance"):
+        before = {f: env.to_np(getattr(src, f)).copy() for f in ("x", "log_likelihood", "log_prior", "log_q")}
+        for fn in ("log_weights", "unnormalized_log_weights", "log_evidence_ratio", "log_evidence_ratio_variance", "log_p_t"):
             if hasattr(src, fn):
                 try:
                     getattr(src, fn)(bn)
                 except ValueError as e:
                     if "NaN" not in str(e):
                         raise
+        for f, v in before.items():
+            # diagnostics are read-only: the particles that are resampled afterwards must still be the ones that were built
+            if not np.array_equal(env.to_np(getattr(src, f)), v, equal_nan=True):
+                ctx.fail(f"diagnostic-modified:{f}", f"evaluating weights / tempered densities of the population changed its {f}", case, field=f)
         if pre == "diag+assign-ll":
             src.log_likelihood = src.array_to_namespace(ll)
         elif pre == "diag+assign-beta":
